@@ -580,6 +580,11 @@ def World.onGot (w : World) (toks : List String) : World :=
   let p := peerNum (toks.getD 1 "")
   let want := entryNum (w.pending.getD 2 "")
   let r := toks.getD 2 ""
+  -- an entry whose payload is not an operation has no operation to hand out: Get says so (it used to
+  -- answer, without an error, with the NEXT operation of the log: review of the F60 repair)
+  if w.badOps.contains want then
+    if r == "err" then w else w.fail "C12" "get" s!"peer {p}: Get(e{want}) of an entry that is not an operation answered with {r}"
+  else
   if r == "err" then w.fail "C08" "get" s!"peer {p}: Get(e{want}) failed"
   else if entryNum r != want then w.fail "C08" "get" s!"peer {p}: Get(e{want}) returned {r}" else w
 
